@@ -145,6 +145,7 @@ structure Gw where
   registered : List (UInt16 × Bytes) := []     -- sync.Map TopicID ↦ name (first binding live)
   idseq : IdSeq
   exhausted : Bool := false
+  regIds : List (Bytes × UInt16) := []          -- `registrationTopicIDs`: name ↦ ID of the gateway's own registrations
   buffer : List BufItem := []
   txs : List Tx := []
   nextTx : Nat := 0
@@ -234,6 +235,18 @@ def newTopicId (g : Gw) : Option UInt16 × Gw :=
       match newTopicIdLoop g (g.idseq.max.toNat - g.idseq.min.toNat + 2) id s with
       | (some r, s') => (some r, { g with idseq := s' })
       | (none, s') => (none, { g with idseq := s', exhausted := true })
+
+def storeRegId (g : Gw) (topic : Bytes) (id : UInt16) : Gw := { g with regIds := (topic, id) :: g.regIds }
+
+/-- `registrationTopicID`: the ID under which the gateway registers a topic name with the client —
+    the one it used before for this name, otherwise a new one -/
+def registrationTopicId (g : Gw) (topic : Bytes) : Option UInt16 × Gw :=
+  match g.regIds.lookup topic with
+  | some id => (some id, g)
+  | none =>
+    match g.newTopicId with
+    | (some id, g') => (some id, g'.storeRegId topic id)
+    | (none, g') => (none, g')
 
 /-- IDs under which `name` is registered (sync.Map.Range may return any of them) -/
 def registeredIds (g : Gw) (name : Bytes) : List UInt16 :=
@@ -565,7 +578,7 @@ def handleBrokerPublish (g : Gw) (dup : Bool) (qos : UInt8) (retain : Bool) (mid
       | some msgId =>
         if qos > 2 then g.fail .error
         else
-          match g.newTopicId with
+          match g.registrationTopicId topic with
           | (none, g') => g'.fail .error
           | (some newId, g') =>
             g'.startBrokerPub qos msgId .awaitingRegack (some (.publish dup qos retain 0 newId mid payload))
